@@ -106,6 +106,12 @@ CHECKS = {
         'the Pending record is applied before the pay call; Succeeded holds pre(H); two lifecycles of one hash, one crash, one datastore write rejected or applied-but-reported-failed.',
    design='4/C08', technique='symbolic execution of the real async stack from MIR under an explicit-state scheduler with partial-order reduction; SMT decides data; native replay over a fake node',
    note=TRUST + '; serde_json is a token contract (the JSON text is outside); bounds as C02.'),
+ 'C09': dict(category='model_checking',
+   text='Full stack from MIR over consecutive manager lifetimes on one node model: a funded HTLC is interrupted by one crash at any point, or by one datastore write that is rejected or applied-but-reported-failed; '
+        'leftover parts resolve arbitrarily; then up to two fully funded retries run against a cooperative node. Violation = no retry is settled (and in particular a failing retry leaves the durable state '
+        'exactly as it found it, the decidable form of "permanently").',
+   design='4/C09', technique='symbolic execution of the real async stack from MIR under an explicit-state scheduler with partial-order reduction; SMT decides data; native replay over a fake node',
+   note=TRUST + '; bounds: 1 crash or 1 write fault (thorough: both), 2 retries, 1 part.'),
 }
 
 NOT_YET = 'harness not built yet in this session (see DESIGN.md build order); will be claimed once its check exists'
